@@ -586,6 +586,10 @@ class CastUnmarshaller(AbstractUnmarshaller[T]):
         Args:
             val: The input value to unmarshal.
         """
+        # A member of a text-like target (e.g., a `str` enum) is the value itself,
+        #   not an encoding of one.
+        if isinstance(val, self.t) and inspection.istexttype(self.t):
+            return val
         # Try to load the string, if this is JSON or a literal expression.
         decoded = serdes.load(val)
         # Short-circuit cast if we have the type we want.
